@@ -178,7 +178,7 @@ def init (spec : WfSpec) (parentCtx inputs : Val.Dict) : Cond :=
 
 structure ActionOffer where
   action : String
-  input : Val.Dict
+  input : Val
   itemId : Option Nat
   deriving Repr
 
@@ -197,8 +197,10 @@ def liftOpt {α} (o : Option α) (e : Err) : M α :=
   | some a => pure a
   | none => throw e
 
-def evalInputs (inp : List (String × Expr)) (ec : EvalCtx) : Option Val.Dict :=
-  inp.foldlM (fun acc p => (E.eval p.2 ec).map fun v => Val.dset acc p.1 v) []
+/-- `evaluate(getattr(self, "input", {}), ctx)`: an absent input renders as `None` -/
+def evalInputs (inp : List (String × Expr)) (ec : EvalCtx) : Option Val :=
+  if inp.isEmpty then some .null
+  else (inp.foldlM (fun acc p => (E.eval p.2 ec).map fun v => Val.dset acc p.1 v) []).map Val.dict
 
 /-- `get_task(task_id, route)` -/
 def getTask (k : TaskKey) : M Offer := do
@@ -708,7 +710,7 @@ def requestTaskRerun (k : TaskKey) (resetItems : Bool) : M Unit := do
   modify fun c => { c with errors := c.errors.filter fun e => e.taskId != some k.1 }
   (if ts.withItems.isSome then do
       let c ← get
-      if (c.st.getStaged? k).isNone then throw .typeError
+      if (c.st.getStaged? k).isNone then throw .attributeError
       else modifySt fun st => st.updateStaged k fun x =>
         { x with items := x.items.map fun l => l.map fun s => if resetItems || s.isAbended then .unset else s }
     else do
